@@ -131,10 +131,49 @@ Fixpoint build_refs (env : benv) (e : option err) (l : list sexp) (s : bstate)
 Definition get_ref (refs : list (option err)) (x : sexp) : option (option err) :=
   do i <- get_N x; nth_error refs (N.to_nat i).
 
+(* ---- Is / IsAny evaluated with the marks of all visible nodes computed once
+   per error (Proofs/FastIs.v: equal to Marks.is_ / is_any) ---- *)
+Definition marked := (err * emark)%type.
+Definition with_marks (e : err) : list marked := List.map (fun c => (c, get_mark c)) (visit_all e).
+Definition ref_marked (r : option err) : option marked :=
+  match r with Some x => Some (x, get_mark x) | None => None end.
+
+Definition node_matches (cm : marked) (rm : marked) : bool :=
+  own_match (fst cm) (fst rm) || equal_marks (snd cm) (snd rm).
+
+Definition is_fast (vm : list marked) (rm : marked) : bool :=
+  existsb (fun cm => node_matches cm rm) vm.
+
+Definition is_opt_fast (vm : option (list marked)) (r : option marked) : bool :=
+  match r with
+  | None => match vm with None => true | Some _ => false end
+  | Some rm => match vm with None => false | Some l => is_fast l rm end
+  end.
+
+Definition is_any_opt_fast (vm : option (list marked)) (rs : list (option marked)) : bool :=
+  match vm with
+  | None => existsb (fun r => match r with None => true | Some _ => false end) rs
+  | Some l => existsb (fun cm => existsb (fun rm => node_matches cm rm) (somes rs)) l
+  end.
+
+(* does a list of observations ask for Is / IsAny at this level? (the marks are
+   only computed when it does) *)
+Definition needs_marks (obs : list sexp) : bool :=
+  existsb (fun o => match o with
+                    | L (A name :: _) => str_eqb name (lit "is") || str_eqb name (lit "isany")
+                    | _ => false
+                    end) obs.
+Definition marks_if (b : bool) (e : err) : option (list marked) :=
+  Some (if b then with_marks e else []).
+
+Definition get_mref (refs : list (option marked)) (x : sexp) : option (option marked) :=
+  do i <- get_N x; nth_error refs (N.to_nat i).
+
 Definition bad (why : string) : sexp := L [sym "bad"; sym why].
 
 (* one observation on a possibly-nil error *)
-Fixpoint eval_obs (refs : list (option err)) (n : positive) (oe : option err) (o : sexp) {struct o} : sexp :=
+Fixpoint eval_obs (refs : list (option err)) (mrefs : list (option marked)) (n : positive)
+         (oe : option err) (vm : option (list marked)) (o : sexp) {struct o} : sexp :=
   let on_err (f : err -> sexp) : sexp :=
     match oe with Some e => f e | None => sym "nil-error" end in
   match o with
@@ -189,7 +228,7 @@ Fixpoint eval_obs (refs : list (option err)) (n : positive) (oe : option err) (o
     L [A name;
     if str_eqb name (lit "is") then
       match args with
-      | [r] => match get_ref refs r with Some x => sB (is_opt oe x) | None => bad "ref" end
+      | [r] => match get_mref mrefs r with Some x => sB (is_opt_fast vm x) | None => bad "ref" end
       | _ => bad "args"
       end
     else if str_eqb name (lit "std-is") then
@@ -211,8 +250,8 @@ Fixpoint eval_obs (refs : list (option err)) (n : positive) (oe : option err) (o
       | _ => bad "args"
       end
     else if str_eqb name (lit "isany") then
-      match omap (get_ref refs) args with
-      | Some rs => sB (is_any_opt oe rs)
+      match omap (get_mref mrefs) args with
+      | Some rs => sB (is_any_opt_fast vm rs)
       | None => bad "ref"
       end
     else if str_eqb name (lit "hastype") then
@@ -244,8 +283,8 @@ Fixpoint eval_obs (refs : list (option err)) (n : positive) (oe : option err) (o
           match oe with
           | Some e =>
             let '(e1, n1) := transfer procs e n in
-            L (List.map (eval_obs refs n1 (Some e1)) obs)
-          | None => L (List.map (eval_obs refs n None) obs)
+            L (List.map (eval_obs refs mrefs n1 (Some e1) (marks_if (needs_marks obs) e1)) obs)
+          | None => L (List.map (eval_obs refs mrefs n None None) obs)
           end
         | None => bad "procs"
         end
@@ -263,7 +302,9 @@ Definition run_case (x : sexp) : sexp :=
       let env := mkbenv stks in
       let '(oe, s1) := build env r bs_init in
       match build_refs env oe refs s1 with
-      | Some (rs, s2) => L (sym "result" :: A id :: List.map (eval_obs rs (bs_oid s2) oe) obs)
+      | Some (rs, s2) =>
+        let vm := match oe with Some e => marks_if (needs_marks obs) e | None => None end in
+        L (sym "result" :: A id :: List.map (eval_obs rs (List.map ref_marked rs) (bs_oid s2) oe vm) obs)
       | None => L [sym "result"; A id; bad "refs"]
       end
     | None, _ => L [sym "result"; A id; bad "stacks"]
